@@ -201,7 +201,9 @@ VALUES = {
     # an existing key spelled with a hyphen is the same key
     "log-level": (("DEBUG", True), ("LOUD", False)),
     "max-retries": (("7", True), ("-5", False)),
-    "brand-new-key": (("anything", True), ("0", True)),      # keys are normalised (- to _) when the file is loaded: get must find what set stored
+    "brand-new-key": (("anything", True), ("0", True)),
+    # keys are case-sensitive: a capitalised key is a key of its own, stored and read back as typed
+    "Region": (("eu-west", True),), "Timeout": (("soon", True),), "Log_Level": (("x", True),),      # keys are normalised (- to _) when the file is loaded: get must find what set stored
 }
 
 
